@@ -119,6 +119,8 @@ def make_case(rng):
 
 
 def run_case(spec):
+    if spec.get('kind') == 'natural':
+        return natural_case(spec)
     rng = random.Random(spec['seed'])
     case = make_case(rng)
     if case is None:
@@ -242,12 +244,114 @@ def run_case(spec):
         drivers.rm(wd)
 
 
+def natural_case(spec):
+    """Natural data fault: one transcript X gets a record that makes its whole variant series invalid (a small variant
+    placed beyond the end of X's gene, or a fusion of X whose acceptor position lies beyond the acceptor gene). With
+    --skip-failed the run must complete, count X as invalid, never call X's units, leave every unit that does not
+    involve X unchanged and keep X-only peptides out; without --skip-failed the run must abort without a FASTA."""
+    rng = random.Random(spec['seed'])
+    case = make_case(rng)
+    if case is None:
+        return {'skipped': True}
+    wd = drivers.case_dir('c07n-')
+    viol = []
+    counters = {'natural_cases': 1}
+    try:
+        paths = cv.write_case(case, wd)
+        with Recorder() as r0:
+            fa, _ = cvmon.execute(case, wd, paths, out='ok.fasta', skip_failed=True)
+        out0 = {s for _, s in fa}
+        units = list(dict.fromkeys(r0.order))
+        R = r0.units
+        with_recs = [g.txs[0] for g in case.ref.genes if any(r.tx is g.txs[0] for r in case.recs())]
+        if len(with_recs) < 2:
+            return {'skipped': True, 'counters': {'natural_too_few_transcripts': 1}}
+        X = rng.choice(with_recs)
+        kind = spec.get('poison') or rng.choice(['small-beyond-gene', 'fusion-acceptor-beyond-gene'])
+        gsX = case.ref.gene_seq(X.gene)
+        if kind == 'small-beyond-gene':
+            bad = gvfgen.Small(X.gene, X, len(gsX) + rng.randint(1, 30), 'A', 'T')
+            gvfgen.write_gvf(f'{wd}/bad.gvf', [bad], 'gINDEL', 'small')
+        else:
+            acc = rng.choice([g for g in case.ref.genes if g is not X.gene]).txs[0]
+            dpos = X.tx2gene(rng.randint(6, X.tx_len() - 1)) + 1
+            bad = gvfgen.Fusion(X.gene, X, dpos, acc.gene, acc, len(case.ref.gene_seq(acc.gene)) + rng.randint(5, 60),
+                                gsX[min(dpos, len(gsX) - 1)])
+            gvfgen.write_gvf(f'{wd}/bad.gvf', [bad], 'Fusion2', 'fusion')
+        paths2 = paths + [f'{wd}/bad.gvf']
+        # which units involve X: its own units, and fusions of other transcripts whose acceptor is X
+        own, dependent = set(), set()
+        for u in units:
+            if u[0] == 'main' and u[1] == X.id:
+                own.add(u)
+        for rec in case.recs():
+            if isinstance(rec, gvfgen.Fusion):
+                if rec.tx is X:
+                    own.add(('fusion', rec.id))
+                elif rec.acc_tx is X:
+                    dependent.add(('fusion', rec.id))
+            elif isinstance(rec, gvfgen.Circ) and rec.tx is X:
+                own.add(('circ', rec.id))
+        own &= set(units)
+        dependent &= set(units)
+        # ---- without --skip-failed: the fault must abort the run and leave no FASTA. If the run completes the record did
+        # not make anything fail (the tool tolerates it), so this is not a failure case and nothing is judged.
+        outp = f'{wd}/nf.fasta'
+        try:
+            cvmon.execute(case, wd, paths2, out='nf.fasta', skip_failed=False)
+            return {'nontrivial': False, 'violations': [], 'counters': {'natural_cases': 1, 'natural_poison_tolerated': 1}}
+        except Exception:
+            counters['natural_abort_runs'] = 1
+            if os.path.exists(outp):
+                viol.append({'kind': 'fasta-written-despite-abort', 'msg': f'{kind} on {X.id}'})
+        # ---- with --skip-failed
+        try:
+            with Recorder() as r1:
+                fa1, _ = cvmon.execute(case, wd, paths2, out='f.fasta', skip_failed=True)
+        except Exception as e:
+            viol.append({'kind': 'skip-failed-run-aborted-on-invalid-series',
+                         'msg': f'{kind} on {X.id} (units of X: {sorted(own)}; fusions into X: {sorted(dependent)}): '
+                                f'{type(e).__name__}: {str(e)[:160]}'})
+            r1 = None
+        counters['natural_runs'] = 1
+        if r1 is not None:
+            out1 = {s for _, s in fa1}
+            if (r1.tally or {}).get('invalid') != 1:
+                viol.append({'kind': 'tally-wrong', 'msg': f'{kind} on {X.id}: invalid-transcript tally {(r1.tally or {}).get("invalid")} expected 1'})
+            called_own = [u for u in r1.order if (u[0] == 'main' and u[1] == X.id) or u in own]
+            if called_own:
+                viol.append({'kind': 'invalid-transcript-still-called', 'msg': f'{kind} on {X.id}: units {called_own} were processed'})
+            for u in units:
+                if u in own or u in dependent:
+                    continue
+                a, b = R.get(u), r1.units.get(u)
+                if b is None:
+                    viol.append({'kind': 'surviving-unit-not-called', 'msg': f'{kind} on {X.id}: unit {u} was not processed'})
+                elif a != b:
+                    viol.append({'kind': 'surviving-unit-altered', 'msg': f'{kind} on {X.id}: unit {u}: lost {sorted(a - b)[:4]} gained {sorted(b - a)[:4]}'})
+            surviving = set().union(*[R[u] for u in units if u not in own and u not in dependent and u in R] or [set()])
+            if not (surviving & out0) <= out1:
+                viol.append({'kind': 'failure-removes-other-units-peptides', 'msg': f'{kind} on {X.id}: {sorted((surviving & out0) - out1)[:5]}'})
+            only_x = set().union(*[R.get(u, set()) for u in own] or [set()]) - surviving \
+                - set().union(*[r1.units.get(u, set()) for u in dependent] or [set()])
+            if out1 & only_x:
+                viol.append({'kind': 'failed-unit-peptides-present', 'msg': f'{kind} on {X.id}: {sorted(out1 & only_x)[:5]}'})
+        return {'nontrivial': True, 'feature': ('natural', kind, len(own), len(dependent), len(units)), 'violations': viol[:8],
+                'counters': counters,
+                'sample': {'natural_fault': kind, 'transcript': X.id, 'own_units': [list(u) for u in sorted(own)],
+                           'fusions_into_it': [list(u) for u in sorted(dependent)], 'units': len(units)}}
+    finally:
+        drivers.rm(wd)
+
+
 def check(rep, tier, seed, specs=None, n_override=None):
     quick = tier == 'quick'
     if specs is None:
         n = n_override or (48 if quick else 3000)
         specs = [{'seed': common.hash64('c07', 'fixed' if i < n // 2 else seed, i), 'max_faults': 2 if quick else 3,
                   'max_sets': 40 if quick else 200, 'cli': (i % 6 == 0)} for i in range(n)]
+        nn = (n_override or (96 if quick else 6000))
+        specs += [{'kind': 'natural', 'seed': common.hash64('c07n', 'fixed' if i < nn // 2 else seed, i)} for i in range(nn)]
     results, lost = common.shard_run('c07', specs, timeout_s=1800 if quick else 8 * 3600)
     rep.rule = ('inputs with 2-3 transcripts carrying small variants (main unit), 1-2 fusions as donor and 1-2 circRNAs (<= 14 units); the '
                 'fault-free run records the peptides each unit returns (wrappers on call_peptide_main / _fusion / _circ_rna). For EVERY single '
@@ -255,10 +359,13 @@ def check(rep, tier, seed, specs=None, n_override=None):
                 'failing transcripts per kind, every surviving unit must return the same peptides, surviving peptides must be present, peptides only '
                 'the failed units produce must be absent; without --skip-failed every single fault must abort and leave no FASTA. A sample of faults '
                 'is repeated through the CLI with --threads 1 and 2 (failpoint via environment inside ppft workers). '
+                'Natural data faults: one transcript gets a record that invalidates its whole variant series (small variant beyond the gene end; '
+                'fusion whose acceptor position is beyond the acceptor gene): with --skip-failed the run completes, tallies one invalid transcript, '
+                'never calls its units, leaves units not involving it unchanged; without --skip-failed it aborts and writes no FASTA. '
                 'non-trivial = case with >= 2 units; distinct = unit-count vector.')
     rep.absorb(results, lost)
     rep.exhaustive = True
     rep.extra['exhaustive_scope'] = 'all single faults of every generated case (and all pairs up to the per-case cap)'
-    for k in ('fault_runs', 'abort_runs', 'cli_fault_runs'):
+    for k in ('fault_runs', 'abort_runs', 'cli_fault_runs', 'natural_runs', 'natural_abort_runs'):
         if not rep.counters.get(k):
             rep.inconclusive.append(f'monitor {k} had zero evaluations')
